@@ -386,6 +386,17 @@ def gen_format(rng, d):
             lines.append("%s/m CONST UINT8 %d" % (nm, rng.randint(0, 9)))
         if rng.random() < 0.1:
             lines.append("/HIDDEN " + nm)
+    if rng.random() < 0.35:
+        # a bundle of aliases whose targets are drawn from the bundle itself, real fields and a missing name:
+        # chains, chains running into a cycle that does not contain their head, self loops, dangling ends
+        k = rng.randint(2, 7)
+        al = ["al%d" % i for i in range(k)]
+        for i, an in enumerate(al):
+            lines.append("/ALIAS %s %s" % (an, rng.choice(al + al + [rng.choice(names), "nosuch"])))
+        if rng.random() < 0.5:
+            lines.append("ad PHASE %s 1" % rng.choice(al))
+            names.append("ad")
+        names += al
     if rng.random() < 0.3:
         lines.append("/REFERENCE " + rng.choice(names))
     if rng.random() < 0.25:
